@@ -33,6 +33,7 @@ EXTENDS Naturals, Integers, Sequences, FiniteSets, TLC, Json, IOUtils
 
 CONSTANTS Source,      \* "enum" | "file"
           Kinds, Fmts, Ks, Indents, BlankCounts,   \* enumeration bounds (cfg)
+          LeadingWsKept,       \* TRUE while the tree has the deviation (known finding leading-ws-line-shift): see CleanLead
           RstLineNotConverted  \* TRUE while the tree has the deviation (known finding rst-markup-line-off-by-one); FALSE once
                                \* proposed_fixes/C16-rst-markup-line-off-by-one.diff is applied, so that model drift stays 0
 
@@ -46,9 +47,13 @@ WellFormed(l) ==
     /\ (l.open => l.blanks = 0)                                   \* text on the opening line: nothing to skip
     /\ (l.prob \in {"xref", "markup"} <=> l.pos # "own")         \* field problems are their own construct
     /\ (l.prob = "param" => l.kind \in {"function", "method", "class"})
+    \* typed: the Args / Parameters section documents three parameters with their types (napoleon writes a :type: line for each)
+    /\ (l.typed => l.fmt \in {"google", "numpy"} /\ l.prob = "param" /\ ~l.raw)
+    \* longws: the (only) leading blank line carries MORE white space than the docstring's indentation
+    /\ (l.longws => ~l.open /\ l.blanks = 1 /\ ~l.raw)
 
 Layouts == {l \in [kind : Kinds, fmt : Fmts, prob : Probs, pos : Poss, open : BOOLEAN,
-                   blanks : BlankCounts, indent : Indents, raw : BOOLEAN, k : Ks] : WellFormed(l)}
+                   blanks : BlankCounts, indent : Indents, raw : BOOLEAN, k : Ks, typed : BOOLEAN, longws : BOOLEAN] : WellFormed(l)}
 
 \* OBS_FILE: {"obs": [[id, lay, lines] ...], "groups": [[index into obs ...] ...]}  (groups: same layout up to k)
 ObsFile  == IF Source = "file" THEN JsonDeserialize(IOEnv.OBS_FILE) ELSE [obs |-> <<>>, groups |-> <<>>]
@@ -90,14 +95,16 @@ Mark(l) ==
     [] l.pos = "own" ->
          (CASE l.fmt \in {"epytext", "restructuredtext"} -> [first |-> 11, at |-> 11]
             [] l.fmt \in {"google", "numpy"} /\ l.prob = "unkfield" -> [first |-> 9, at |-> 9]  \* ':unknownfield: text' + blank before Note
-            [] l.fmt = "google" /\ l.prob = "param" -> [first |-> 15, at |-> 15]         \* Note(9-11) blank Args: a nosuch
-            [] l.fmt = "numpy"  /\ l.prob = "param" -> [first |-> 18, at |-> 18])        \* Note(9-12) blank Parameters ---- a desc nosuch
+            [] l.fmt = "google" /\ l.prob = "param" /\ ~l.typed -> [first |-> 15, at |-> 15]   \* Note(9-11) blank Args: a nosuch
+            [] l.fmt = "numpy"  /\ l.prob = "param" /\ ~l.typed -> [first |-> 18, at |-> 18]   \* Note(9-12) blank Parameters ---- a desc nosuch
+            [] l.fmt = "google" /\ l.prob = "param" /\ l.typed  -> [first |-> 17, at |-> 17]   \* ... Args: a b c nosuch
+            [] l.fmt = "numpy"  /\ l.prob = "param" /\ l.typed  -> [first |-> 22, at |-> 22])  \* ... Parameters ---- a d b d c d nosuch
 \* number of lines of the cleaned docstring
 DocLen(l) ==
   LET shift == IF l.prob = "unkfield" /\ l.fmt \in {"google", "numpy"} THEN 2 ELSE 0 IN
   CASE l.fmt \in {"epytext", "restructuredtext"} -> IF l.pos = "own" THEN 12 ELSE 11
-    [] l.fmt = "google" -> shift + 12 + (IF HasArgs(l) THEN 3 + (IF l.prob = "param" THEN 1 ELSE 0) ELSE 0)
-    [] l.fmt = "numpy"  -> shift + 13 + (IF HasArgs(l) THEN 5 + (IF l.prob = "param" THEN 2 ELSE 0) ELSE 0)
+    [] l.fmt = "google" -> shift + 12 + (IF l.typed THEN 6 ELSE IF HasArgs(l) THEN 3 + (IF l.prob = "param" THEN 1 ELSE 0) ELSE 0)
+    [] l.fmt = "numpy"  -> shift + 13 + (IF l.typed THEN 11 ELSE IF HasArgs(l) THEN 5 + (IF l.prob = "param" THEN 2 ELSE 0) ELSE 0)
 CloseLine(l) == TextLine0(l) + DocLen(l)            \* the line of the closing quotes
 
 FirstLine(l) == TextLine0(l) + Mark(l).first
@@ -117,11 +124,11 @@ Acceptable(l) == IF l.fmt \in {"epytext", "restructuredtext"} THEN FirstLine(l).
 Spaces(n) == [i \in 1..n |-> "sp"]
 BodyIndent(l) == 4 * (IF l.kind = "module" THEN 0 ELSE Depth(l) + (IF l.kind = "attribute" THEN 0 ELSE 1))
                  + (IF l.kind \in {"module", "function"} THEN 2 * l.indent ELSE 0)
-\* the harness writes the LAST leading blank line with the body indentation on it (white space only), the others empty
+\* the harness writes the LAST leading blank line with the body indentation on it (white space only; longws: four more), the others empty
 Prefix(l) == IF l.open THEN <<"ch">>
              ELSE <<"nl">>
                   \o (IF l.blanks >= 2 THEN <<"nl">> ELSE <<>>)
-                  \o (IF l.blanks >= 1 THEN Spaces(BodyIndent(l)) \o <<"nl">> ELSE <<>>)
+                  \o (IF l.blanks >= 1 THEN Spaces(BodyIndent(l) + (IF l.longws THEN 4 ELSE 0)) \o <<"nl">> ELSE <<>>)
                   \o Spaces(BodyIndent(l)) \o <<"ch">>
 \* astutils.py:439-443   for ch in doc: if ch == '\n': lineno += 1 / elif not ch.isspace(): break
 RECURSIVE Scan(_, _, _)
@@ -131,6 +138,10 @@ Scan(s, i, n) == IF i > Len(s) THEN n
                  ELSE n
 \* astutils.py:429 lineno = node.lineno (start of the token on this Python), then the loop; model.py:170
 DocstringLine(l) == Scan(Prefix(l), 1, QuoteLine(l))
+\* astutils.py:461 inspect.cleandoc(value) (Python 3.12): the margin is removed from every line, then leading lines that are
+\* EMPTY are dropped.  A white-space-only line longer than the margin is not empty afterwards: it stays as line 0 of the text
+\* the parsers see, although extract_docstring_linenum has skipped it as blank               (deviation LeadingWsKept)
+CleanLead(l) == IF l.longws /\ LeadingWsKept THEN 1 ELSE 0
 
 \* napoleon rewrites google / numpy sections into reST before parsing.  For this template the rewritten text keeps
 \* lines 0..8 and then:   google "Note:/b1/b2"      -> ".. note::" / "" / b1 / b2        (body moves down by 1)
@@ -142,7 +153,10 @@ DocstringLine(l) == Scan(Prefix(l), 1, QuoteLine(l))
 RstFamily(l) == l.fmt \in {"restructuredtext", "google", "numpy"}
 Conv(l) == CASE l.fmt = "google" /\ l.pos = "field" -> [first |-> 11, at |-> 12]
              [] l.fmt = "numpy"  /\ l.pos = "field" -> [first |-> 11, at |-> 12]
-             [] l.fmt = "numpy"  /\ l.prob = "param" -> [first |-> Mark(l).first - 3, at |-> Mark(l).at - 3]
+             [] l.fmt = "numpy"  /\ l.prob = "param" /\ ~l.typed -> [first |-> Mark(l).first - 3, at |-> Mark(l).at - 3]
+             \* typed: every "x (T): d" / "x : T / d" becomes ":param x: d" + ":type x: T": the rewritten text grows past the original
+             [] l.fmt = "google" /\ l.typed -> [first |-> 20, at |-> 20]
+             [] l.fmt = "numpy"  /\ l.typed -> [first |-> 20, at |-> 20]
              [] OTHER -> Mark(l)
 \* which line of the text it parses (0-based) the parser attaches to the problem
 \*   epytext : Token.startline of the paragraph / bullet / field, for errors, links and Field.lineno alike
@@ -165,16 +179,21 @@ Offset(l) ==
     [] l.prob \in {"unkfield", "param"} /\ l.fmt = "epytext" -> ParserFirst(l)                \* Field(.., lineno) ; Field.report
     [] l.prob \in {"unkfield", "param"} /\ RstFamily(l)      -> (ParserFirst(l) + 1) - 1      \* restructuredtext.py:282 node.line - 1
 \* model.py:403-408   linenumber = self.docstring_lineno or self.linenumber ; linenumber += lineno_offset
-ReportedLine(l) == (IF DocstringLine(l) # 0 THEN DocstringLine(l) ELSE ObjLine(l)) + Offset(l)
+ReportedLine(l) == (IF DocstringLine(l) # 0 THEN DocstringLine(l) ELSE ObjLine(l)) + Offset(l) + CleanLead(l)
 
 \* ------------------------------------------------------------------ invariants
 \* known finding (findings.d/C16.json  rst-markup-line-off-by-one)
 KF_RstLineNotConverted(l, line) == l.fmt = "restructuredtext" /\ l.prob = "markup" /\ line = FirstLine(l) + 1
 
+\* known finding (findings.d/C16.json  leading-ws-line-shift): everything is reported one line too low
+KF_LeadingWs(l, line) == l.longws /\ line \notin Acceptable(l) /\ (line - 1) \in Acceptable(l)
+\* known finding (findings.d/C16.json  napoleon-line-beyond-docstring): the line counted in the rewritten text lies past the closing quotes
+KF_Napoleon(l, line) == l.typed /\ line > CloseLine(l) /\ line <= CloseLine(l) + 4
 DocstringLineRight == DocstringLine(lay) = TextLine0(lay)
 \* design level (enum) : the transcription satisfies the property, up to the known deviation
 ImplAcceptable == Source = "enum" =>
-                    (ReportedLine(lay) \in Acceptable(lay) \/ KF_RstLineNotConverted(lay, ReportedLine(lay)))
+                    (\/ ReportedLine(lay) \in Acceptable(lay) \/ KF_RstLineNotConverted(lay, ReportedLine(lay))
+                     \/ KF_LeadingWs(lay, ReportedLine(lay)) \/ KF_Napoleon(lay, ReportedLine(lay)))
 ImplAcceptableStrict == Source = "enum" => ReportedLine(lay) \in Acceptable(lay)
 \* moving the definition down by k moves the report by k
 ImplShift == Source = "enum" => ReportedLine(lay) - ReportedLine([lay EXCEPT !.k = 0]) = lay.k
@@ -193,7 +212,9 @@ Emit == IF Source = "enum" THEN PrintT(ToJson(Rec(lay)))
         ELSE PrintT(ToJson([id |-> Observed[obs].id,
                              one |-> Len(Observed[obs].lines) = 1,
                              ok |-> (Len(Observed[obs].lines) = 1 /\ Observed[obs].lines[1] \in Acceptable(lay)),
-                             kf |-> (Len(Observed[obs].lines) = 1 /\ KF_RstLineNotConverted(lay, Observed[obs].lines[1])),
+                             kf |-> (Len(Observed[obs].lines) = 1 /\ (\/ KF_RstLineNotConverted(lay, Observed[obs].lines[1])
+                                                                        \/ KF_LeadingWs(lay, Observed[obs].lines[1])
+                                                                        \/ KF_Napoleon(lay, Observed[obs].lines[1]))),
                              conforms |-> (Len(Observed[obs].lines) = 1 /\ Observed[obs].lines[1] = ReportedLine(lay)),
                              lo |-> Rec(lay).lo, hi |-> Rec(lay).hi, impl |-> ReportedLine(lay)]))
 
